@@ -20,7 +20,7 @@ var c15Log []string // global call log: "<plugin>:<op>:<content marker seen>"
 type c15Plugin struct {
 	name    string
 	ops     map[string]bool
-	outcome int // 0 accept-unchanged, 1 accept-modified, 2 reject, 3 error (unreachable / bad status / bad body)
+	outcome int // 0 accept-unchanged, 1 accept-modified, 2 reject, 3 error (unreachable / bad status / bad body), 4 reject with the "unchange" flag also set
 	asked   []string
 }
 
@@ -55,6 +55,9 @@ func (p *c15Plugin) Handle(ctx context.Context, op string, content any) (*Respon
 		return nil, nil, errC15
 	case 2:
 		return &Response{Reject: true, RejectReason: "no"}, nil, nil
+	case 4:
+		// "reject" decides: a plugin that refuses and says it changed nothing has still refused
+		return &Response{Reject: true, RejectReason: "no", Unchange: true}, content, nil
 	case 1:
 		switch c := content.(type) {
 		case LoginContent:
@@ -88,7 +91,7 @@ func VerifC15Chain() {
 	m := NewManager()
 	var ps []*c15Plugin
 	for i := 0; i < n; i++ {
-		p := &c15Plugin{name: string(rune('a' + i)), ops: map[string]bool{}, outcome: zzverif.Choice("outcome", 4)}
+		p := &c15Plugin{name: string(rune('a' + i)), ops: map[string]bool{}, outcome: zzverif.Choice("outcome", 5)}
 		if zzverif.Bool("supportsOp") {
 			p.ops[op] = true
 		}
